@@ -53,6 +53,15 @@ CLAIMED = {
              '[M.get(a, fill) for a in start..end] for the model memory map M. thorough adds an exhaustive (start,end) grid '
              'over 20 fixed programs. Held on the executions observed only.',
         note='Trusted: vf/model/layout.py and the fixed layout ISA encoder; overlapping programs are out of scope here.'),
+    'C05': dict(
+        category='exploration', design_ref='DESIGN.md §3 C05',
+        technique='runtime monitoring: zone reference model (cursor per zone, containment) over real CLI runs; marker bytes '
+                  'per stretch; MemoryZone cursor invariant probe',
+        text='Generated zone layouts (plain, adjacent, overlapping, nested, top-of-memory, redefined GLOBAL, source-created '
+             'valid and invalid zones, invalid ISA zones) and programs switching zones by every means, with boundary lines '
+             'ending exactly at / one past zone and GLOBAL ends and includes issued from inside a zone; rejection expected iff '
+             'a byte leaves its zone/GLOBAL or a zone declaration is invalid, else the image must equal the model map.',
+        note='Trusted: vf/model/layout.py zone rules; parked cursors outside a zone without bytes are DONT_CARE.'),
     'C07': dict(
         category='exploration', design_ref='DESIGN.md §3 C07',
         technique='runtime monitoring: reference-model oracle (exact-arithmetic evaluator + independent grammar recogniser) '
